@@ -7,7 +7,7 @@ verus! {
 //@end
 //@extract multiboot2-header/src/tags.rs :: enum HeaderTagType
 //@  keepattrs #\[(derive|repr)
-//@  rewrite /#\[derive\([^)]*\)\]/ => /#[derive(Copy, Clone)]/
+//@  rewrite /#\[derive\([^)]*\)\]/ => /#[derive(Copy, Clone, PartialEq, Eq)]/
 //@end
 //@extract multiboot2-header/src/tags.rs :: enum HeaderTagFlag
 //@  keepattrs #\[(derive|repr)
@@ -24,6 +24,20 @@ impl Header for HeaderTagHeader {
     open spec fn declared_total(&self) -> int { self.size as int }
     proof fn lemma_hdr_layout(&self) {}
 //@extractall multiboot2-header/src/tags.rs :: impl Header for HeaderTagHeader
+//@end
+}
+
+/// `#[derive(PartialEq)]` on a field-less enum is equality of variants (TRUSTED statement about the derive)
+impl vstd::std_specs::cmp::PartialEqSpecImpl for HeaderTagType {
+    open spec fn obeys_eq_spec() -> bool { true }
+    open spec fn eq_spec(&self, other: &HeaderTagType) -> bool { *self == *other }
+}
+
+impl HeaderTagHeader {
+//@extract multiboot2-header/src/tags.rs :: impl HeaderTagHeader :: fn typ
+//@  ret r
+//@  spec:
+//@    ensures r == self.typ,
 //@end
 }
 
@@ -188,7 +202,30 @@ impl<'a> Multiboot2Header<'a> {
 //@        slice_addr(r.buffer) == ref_addr(self.0) + 16,
 //@        slice_prov(r.buffer) == ref_prov(self.0),
 //@        r.buffer@.len() == val_size(self.0) - 16,
+//@        hdr_iter(self, r),
 //@end
+
+//@extract multiboot2-header/src/header.rs :: impl<'a> Multiboot2Header<'a> :: fn get_tag
+//@  ret r
+//@  closure 0: |tag: &&'a DynSizedStructure<HeaderTagHeader>| -> (b: bool) ensures b == (dyn_hdr(*tag).typ == T::ID)
+//@  closure 1: |tag: &'a DynSizedStructure<HeaderTagHeader>| -> (c: &'a T) requires dyn_wf(tag) ensures cast_post(tag, c)
+//@  rewrite /self\s*\.iter\(\)\s*\.find\(/ => /tagiter_find_owned(self.iter(), /
+//@  spec:
+//@    requires self.wf(), panics_allowed(),
+//@    ensures
+//@        // C11: the first tag in walk order whose type is T::ID, viewed as T; nothing when there is none
+//@        exists|it: TagIter<'a, HeaderTagHeader>| #[trigger] hdr_iter(self, it)
+//@            && getter_post::<HeaderTagHeader, T>(it, |h: HeaderTagHeader| h.typ == T::ID, r),
+//@end
+}
+
+/// the iterator state `iter()` starts from: offset 16 of the header, covering exactly the rest of its declared length
+pub open spec fn hdr_iter<'a>(b: &Multiboot2Header<'a>, it: TagIter<'a, HeaderTagHeader>) -> bool {
+    &&& it.wf()
+    &&& it.next_tag_offset == 0
+    &&& slice_addr(it.buffer) == ref_addr(b.0) + 16
+    &&& slice_prov(it.buffer) == ref_prov(b.0)
+    &&& it.buffer@.len() == val_size(b.0) - 16
 }
 
 } // verus!
